@@ -4,7 +4,8 @@ Three parts, each the extracted Coq model (coq/model/Clean.v under the facts re-
 pyrepseq.io:  (A) isvalidaa / isvalidcdr3 over a zoo of Python objects (every string of length <= 3 (5 in the thorough tier) over
 {A,C,F,W,X,c}, unicode, bytes, missing values, numbers, nested containers, generators);  (B) standardize_dataframe on
 random tables, every output cell compared with a direct tidytcells call on that cell alone, the caller's frame compared
-before / after;  (C) multimerge on 2-4 tables with partially overlapping unique keys.
+before / after;  (C) multimerge on 2-4 tables with partially overlapping keys, unique or repeated inside a table (many-to-many
+join; result rows compared as a multiset with the per-key products of the extracted model).
 Only public observations decide: return values, exceptions, the caller's objects afterwards."""
 import itertools, logging, math
 from fractions import Fraction
@@ -534,13 +535,28 @@ def check_standardize(ctx, ncases):
 
 # ===================================================================== (C) multimerge
 def gen_merge(rng):
+    """2-4 tables with partially overlapping keys.  A key may occur more than once inside a table (many-to-many join):
+    `keymode` unique = every table has unique keys; repeated = keys drawn with replacement; shared = a later table may
+    re-use an earlier table's key list verbatim or shuffled (identical indexes, where an alignment and a join differ only
+    when a key repeats)."""
     nt = rng.randint(2, 4)
     intkeys = rng.random() < 0.4
     pool = [1, 2, 3, 5, 8, 13] if intkeys else ['a', 'b', 'c', 'd', 'e', 'f']
     suffixes = None if rng.random() < 0.5 else rng.sample(['1', '2', 'x', 'left', 'B', 'tcr'], nt)
+    keymode = rng.choice(['unique', 'unique', 'repeated', 'repeated', 'shared'])
     tables = []
     for t in range(nt):
-        ks = rng.sample(pool, rng.randint(1, 5))
+        if keymode == 'unique':
+            ks = rng.sample(pool, rng.randint(1, 5))
+        elif keymode == 'shared' and tables and rng.random() < 0.7:
+            ks = list(rng.choice(tables)['keys'])
+            if rng.random() < 0.5:
+                rng.shuffle(ks)
+        else:
+            small = pool[:rng.randint(1, 4)] if rng.random() < 0.6 else pool
+            ks = [rng.choice(small) for _ in range(rng.randint(1, 5 if nt < 4 else 4))]
+            if rng.random() < 0.3:
+                ks.sort(key=repr)
         ncol = rng.randint(1, 2)
         if suffixes is not None:
             names = rng.sample(['v', 'w', 'count'], ncol)
@@ -559,7 +575,8 @@ def gen_merge(rng):
         tables.append(dict(keys=ks, columns=cols))
     how = rng.choice([None, None, 'outer', 'inner'])
     on = rng.choice(['index', 'k', 'k', 'clonotype'])
-    return dict(tables=tables, on=on, suffixes=suffixes, how=how)
+    return dict(tables=tables, on=on, suffixes=suffixes, how=how,
+                suffix_container=rng.choice(['list', 'list', 'tuple']) if suffixes else None)
 
 
 def merge_frames(case):
@@ -576,38 +593,39 @@ def canon_key(k):
     return canon_cell(k)
 
 
+def unique_keys(case):
+    return all(len(set(map(repr, t['keys']))) == len(t['keys']) for t in case['tables'])
+
+
 def run_merge(case, io):
+    """-> (impl, dict(columns, rows) or None, inputs untouched).  rows: the (key, cells) pairs of the result, SORTED -
+    the row order of a join is not part of the contract, the multiset of rows is."""
     dfs = merge_frames(case)
     snap = [canon_frame(d) for d in dfs]
     kw = {} if case['how'] is None else dict(how=case['how'])
     if case['suffixes'] is None:
         impl = call_impl(io.multimerge, dfs, case['on'], **kw)
     else:
-        impl = call_impl(io.multimerge, dfs, case['on'], suffixes=list(case['suffixes']), **kw)
+        sufs = tuple(case['suffixes']) if case.get('suffix_container') == 'tuple' else list(case['suffixes'])
+        impl = call_impl(io.multimerge, dfs, case['on'], suffixes=sufs, **kw)
     untouched = snap == [canon_frame(d) for d in dfs]
     if impl[0] != 'ok':
         return impl, None, untouched
     res = impl[1]
     if case['on'] != 'index' and case['suffixes'] is None:
         if case['on'] not in res.columns:
-            return impl, dict(columns=['<key column missing>'], rows={}), untouched
+            return impl, dict(columns=['<key column missing>'], rows=[]), untouched
         keys = res[case['on']].tolist()
         vals = res.drop(columns=[case['on']])
     else:
         keys = res.index.tolist()
         vals = res
     cols = [str(c) for c in vals.columns]
-    rows = {}
-    dup = False
-    for i, k in enumerate(keys):
-        ck = canon_key(k)
-        dup = dup or ck in rows
-        rows[ck] = [canon_cell(v) for v in vals.iloc[i].tolist()]
-    return impl, dict(columns=cols, rows=rows, dup=dup), untouched
+    rows = [[canon_key(k), [canon_cell(v) for v in vals.iloc[i].tolist()]] for i, k in enumerate(keys)]
+    return impl, dict(columns=cols, rows=sorted(rows, key=repr)), untouched
 
 
 def check_merge(ctx, ncases):
-    import pyrepseq.io as io
     rng = ctx.rng
     cases = [gen_merge(rng) for _ in range(ncases)]
     # the minimal D11 input first
@@ -616,58 +634,153 @@ def check_merge(ctx, ncases):
     merge_cases(ctx, cases)
 
 
-def merge_cases(ctx, cases):
+def merge_requests(case):
+    """oracle requests of one case: the many-to-many model always; the unique-key model of C18_merge_keys as well when
+    every table has unique keys (C18_merge_m_unique says the two coincide there)"""
+    ts = [([c for c, _ in t['columns']],
+           [(canon_key(k), [canon_cell(col[i]) for _, col in t['columns']]) for i, k in enumerate(t['keys'])])
+          for t in case['tables']]
+    args = [case['on'] == 'index', list(case['suffixes'] or []), case['how'] != 'inner', ts]
+    reqs = [('api_c18_multimerge_m', args)]
+    if unique_keys(case):
+        reqs.append(('api_c18_multimerge', args))
+    return reqs
+
+
+def group_counts(rows):
+    out = {}
+    for k, r in rows:
+        out[k] = out.get(k, 0) + 1
+    return out
+
+
+def merge_verdict(case, outs, io):
+    """(kind, message) when the case fails, else None.  outs: the oracle answers of merge_requests(case)."""
+    code, mcols, mrows = outs[0]
+    impl, got, untouched = run_merge(case, io)
+    where = 'multimerge(on=%r, suffixes=%r, how=%r) of %d tables with keys %s' % (
+        case['on'], case['suffixes'], case['how'], len(case['tables']), [t['keys'] for t in case['tables']])
+    if len(outs) > 1:
+        c2, cols2, rows2 = outs[1]
+        if (c2, list(cols2), sorted([[k, list(r)] for k, r in rows2], key=repr)) != \
+           (code, list(mcols), sorted([[k, list(r)] for k, r in mrows], key=repr)):
+            return 'correspondence', where + ': the unique-key model and the many-to-many model differ on unique keys'
+    if impl[0] != 'ok':
+        return 'property', where + ' raised %s; the property demands the join' % impl[1]
+    if code != 0:
+        return 'correspondence', where + ': model raises %s but the implementation returned a table' % CODE[code]
+    model_rows = sorted([[k, list(r)] for k, r in mrows], key=repr)
+    if got['columns'] != list(mcols):
+        return 'property', where + ': columns %s, expected %s' % (got['columns'], list(mcols))
+    if got['rows'] != model_rows:
+        gc, mc = group_counts(got['rows']), group_counts(model_rows)
+        diff = sorted(set(gc) ^ set(mc))
+        if diff:
+            what = 'keys differ: %s' % diff
+        elif gc != mc:
+            bad = [k for k in sorted(gc) if gc[k] != mc[k]]
+            what = ('row counts per key differ (a key must give one row per combination of the tables\' rows for it): %s' %
+                    ', '.join('%s: %d rows, expected %d' % (k, gc[k], mc[k]) for k in bad[:3]))
+        else:
+            only_g = [r for r in got['rows'] if r not in model_rows][:2]
+            only_m = [r for r in model_rows if r not in got['rows']][:2]
+            what = 'rows differ (as multisets): got %s, expected %s' % (only_g, only_m)
+        return 'property', where + ': ' + what
+    if not untouched:
+        return 'property', where + ' modified an input table'
+    return None
+
+
+def shrink_merge(ctx, case, io, rounds=25):
+    """greedy: drop a table (keeping two), a value column or a row while the case keeps failing"""
+    def candidates(c):
+        ts = c['tables']
+        if len(ts) > 2:
+            for i in range(len(ts)):
+                c2 = dict(c, tables=ts[:i] + ts[i + 1:])
+                if c['suffixes']:
+                    c2['suffixes'] = c['suffixes'][:i] + c['suffixes'][i + 1:]
+                yield c2
+        for i, t in enumerate(ts):
+            if len(t['columns']) > 1:
+                for j in range(len(t['columns'])):
+                    yield dict(c, tables=ts[:i] + [dict(t, columns=t['columns'][:j] + t['columns'][j + 1:])] + ts[i + 1:])
+            if len(t['keys']) > 1:
+                for r in range(len(t['keys'])):
+                    t2 = dict(keys=t['keys'][:r] + t['keys'][r + 1:],
+                              columns=[[n, cells[:r] + cells[r + 1:]] for n, cells in t['columns']])
+                    yield dict(c, tables=ts[:i] + [t2] + ts[i + 1:])
+    best = case
+    try:
+        for _ in range(rounds):
+            cands = list(candidates(best))
+            if not cands:
+                break
+            reqs, spans = [], []
+            for c in cands:
+                r = merge_requests(c)
+                spans.append((len(reqs), len(reqs) + len(r)))
+                reqs += r
+            outs = ctx.oracle.run(reqs)
+            nxt = None
+            for c, (a, b) in zip(cands, spans):
+                o = outs[a:b]
+                if any(isinstance(x, Exception) for x in o):
+                    continue
+                v = merge_verdict(c, o, io)
+                if v and v[0] == 'property':
+                    nxt = c
+                    break
+            if nxt is None:
+                break
+            best = nxt
+    except Exception:
+        pass
+    return best
+
+
+def merge_cases(ctx, cases, shrink=True):
     import pyrepseq.io as io
-    reqs = []
+    reqs, spans = [], []
     for case in cases:
-        ts = [([c for c, _ in t['columns']],
-               [(canon_key(k), [canon_cell(col[i]) for _, col in t['columns']]) for i, k in enumerate(t['keys'])])
-              for t in case['tables']]
-        reqs.append(('api_c18_multimerge', [case['on'] == 'index', list(case['suffixes'] or []), case['how'] != 'inner', ts]))
+        r = merge_requests(case)
+        spans.append((len(reqs), len(reqs) + len(r)))
+        reqs += r
     outs = ctx.oracle.run_parallel(reqs)
     nviol = 0
-    for case, req, out in zip(cases, reqs, outs):
-        if isinstance(out, Exception):
-            raise out
-        code, mcols, mrows = out
-        impl, got, untouched = run_merge(case, io)
+    for case, (a, b) in zip(cases, spans):
+        o = outs[a:b]
+        for x in o:
+            if isinstance(x, Exception):
+                raise x
         keysets = [set(map(repr, t['keys'])) for t in case['tables']]
         union, inter = set.union(*keysets), set.intersection(*keysets)
+        uniq = unique_keys(case)
+        many = any(sum(1 for t in case['tables'] if t['keys'].count(k) > 1) >= 2 for t in case['tables'] for k in t['keys'])
         ctx.case(sample=dict(func='multimerge', on=case['on'], suffixes=case['suffixes'], how=case['how'],
                              keys=[t['keys'] for t in case['tables']]) if len(inter) and len(union) > len(inter) else None,
                  nontrivial_key=('merge', repr(case)) if (inter and union != inter) else None)
         ctx.count('merge:%d tables' % len(case['tables']))
         ctx.count('merge:on=%s suffixes=%s how=%s' % ('index' if case['on'] == 'index' else 'column',
                                                        'yes' if case['suffixes'] else 'no', case['how'] or 'default'))
-        replay = dict(kind='multimerge', case=case)
+        ctx.count('merge:keys %s' % ('unique in every table' if uniq else
+                                     'repeated in two or more tables (many-to-many)' if many else 'repeated in one table'))
+        if len(keysets) > 1 and all(t['keys'] == case['tables'][0]['keys'] for t in case['tables']):
+            ctx.count('merge:identical key lists')
         site = 'io.multimerge[on=%s,suffixes=%s]' % ('index' if case['on'] == 'index' else 'column', bool(case['suffixes']))
-        msg = None
-        kind = 'property'
-        if impl[0] != 'ok':
-            msg = ('multimerge of %d tables on %r (suffixes=%r, how=%r) raised %s; the property demands the join' %
-                   (len(case['tables']), case['on'], case['suffixes'], case['how'], impl[1]))
-        elif code != 0:
-            kind, msg = 'correspondence', 'model raises %s but the implementation returned a table' % CODE[code]
-        else:
-            model = dict(columns=list(mcols), rows={k: list(r) for k, r in mrows})
-            if got.get('dup'):
-                msg = 'a key occurs twice in the result although every table has unique keys'
-            elif got['columns'] != model['columns']:
-                msg = 'columns %s, expected %s' % (got['columns'], model['columns'])
-            elif got['rows'] != model['rows']:
-                diff = sorted(set(got['rows']) ^ set(model['rows']))
-                msg = ('keys differ: %s' % diff) if diff else 'rows differ: %s vs expected %s' % (
-                    [(k, got['rows'][k]) for k in got['rows'] if got['rows'][k] != model['rows'][k]][:2],
-                    [(k, model['rows'][k]) for k in got['rows'] if got['rows'][k] != model['rows'][k]][:2])
-            if msg:
-                msg = 'multimerge(on=%r, suffixes=%r, how=%r): %s' % (case['on'], case['suffixes'], case['how'], msg)
-        if msg is None and not untouched:
-            msg = 'multimerge modified an input table'
-        if msg and nviol < 3:
+        verdict = merge_verdict(case, o, io)
+        if verdict and nviol < 3:
             nviol += 1
-            ctx.violation(kind, msg, replay, site=site)
-        if len(ctx.vm_cases) < (60 if ctx.quick else 400) and len(case['tables']) == 2:
-            ctx.add_vm(req[0], req[1], out)
+            kind, msg = verdict
+            if kind == 'property' and shrink:
+                small = shrink_merge(ctx, case, io)
+                if small is not case:
+                    v2 = merge_verdict(small, ctx.oracle.run(merge_requests(small)), io)
+                    if v2 and v2[0] == 'property':
+                        case, msg = small, v2[1]
+            ctx.violation(kind, msg, dict(kind='multimerge', case=case), site=site)
+        if len(ctx.vm_cases) < (60 if ctx.quick else 400) and len(case['tables']) == 2 and len(o[0][2]) <= 12:
+            ctx.add_vm(reqs[a][0], reqs[a][1], o[0])
 
 
 # ===================================================================== driver entry points
@@ -677,7 +790,7 @@ def run(ctx):
     ctx.rule = ('predicates: non-trivial := the object is a container / bytes / generator, or isvalidaa holds for it (so the '
                 'indexing path of isvalidcdr3 is reached); tables: non-trivial := standardize=True, at least one cell changed by '
                 'standardisation and at least one missing cell in a standard column; joins: non-trivial := the key sets overlap '
-                'but are not all equal')
+                'but are not all equal (keys unique or repeated inside a table)')
     objs, n_exh = zoo(rng, ctx.quick)
     ctx.exhaustive = True
     ctx.note('all %d strings of length <= %d over {A,C,F,W,X,c} enumerated' % (n_exh, 3 if ctx.quick else 5))
@@ -698,7 +811,8 @@ def run(ctx):
         'tidytcells standardisers: the oracle for each cell (called directly on that cell alone); their adherence to IMGT is not examined',
         'pandas DataFrame.copy / rename / Series.map / merge / set_index / add_suffix contracts (modelled; tied by correspondence)',
         'standardize_dataframe leaving its argument untouched is observed (frame compared before/after), not proved: the model is functional',
-        'domain: column names unique after renaming; standard-column cells are strings or missing; join keys unique per table; '
+        'domain: column names unique after renaming; standard-column cells are strings or missing; join keys are strings or ints, none missing (a key may repeat '
+        'inside a table: many-to-many join, rows compared as a multiset); '
         'without suffixes the value columns of different tables have different names']
 
 
@@ -718,6 +832,6 @@ def replay(ctx, obj):
         if viols:
             ctx.violation('property', 'replay still fails: ' + '; '.join(m for _, m in viols[:3]), r, site='io.standardize_dataframe')
     elif kind == 'multimerge':
-        merge_cases(ctx, [r['case']])
+        merge_cases(ctx, [r['case']], shrink=False)
     else:
         run(ctx)
